@@ -359,6 +359,13 @@ func (jf *JSONFamily) memberOK(e *FuncEnc, a, a0 string, c string, m jsonMember)
 // objectSpec: the clauses relating the member view `obj1` (after) to `obj0`
 // (before) for struct value c of type jt.
 func (jf *JSONFamily) objectSpec(e *FuncEnc, jt *jsonType, c, obj0, obj1 string) (members []NamedFormula, any string, fresh string, rest string) {
+	return jf.objectSpecAP(e, jt, c, obj0, obj1, nil, nil)
+}
+
+// objectSpecAP: with the additional-properties map (ap != nil); `visited`
+// (a set term) restricts the map entries to the ones written so far (loop
+// invariant); nil = all of them.
+func (jf *JSONFamily) objectSpecAP(e *FuncEnc, jt *jsonType, c, obj0, obj1 string, ap *apCtx, visited func(k string) string) (members []NamedFormula, any string, fresh string, rest string) {
 	var anys, freshs, notDeclared []string
 	q := "krest"
 	for _, m := range jt.Members {
@@ -379,6 +386,32 @@ func (jf *JSONFamily) objectSpec(e *FuncEnc, jt *jsonType, c, obj0, obj1 string)
 	}
 	fresh = and(freshs...)
 	restBody := eq(sx("select", obj1, q), sx("select", obj0, q))
+	if ap != nil {
+		in := ap.has(q)
+		if visited != nil {
+			in = visited(q)
+		}
+		restBody = eq(sx("select", obj1, q), ite(in, ap.entry(q), sx("select", obj0, q)))
+		if visited == nil {
+			anys = append(anys, ap.lenPos)
+			any = or(anys...)
+		}
+		if ap.problem != "" {
+			jf.note(jt.Named.Obj().Name() + ": " + ap.problem)
+			restBody = "false"
+		}
+		// keys of the map are not declared property names, and are new to the object
+		var disj []string
+		for _, m := range jt.Members {
+			disj = append(disj, not(ap.has(e.D.Lit(m.Name))))
+		}
+		hyp := and(disj...)
+		for i := range members {
+			members[i].Formula = implies(hyp, members[i].Formula)
+		}
+		fresh = and(fresh, hyp, fmt.Sprintf("(forall ((kf %s)) (! (=> %s (= (select %s kf) j_none)) :pattern ((select %s kf))))", ap.ks, ap.has("kf"), obj0, obj0))
+		restBody = implies(hyp, restBody)
+	}
 	if len(notDeclared) > 0 {
 		restBody = implies(and(notDeclared...), restBody)
 	}
@@ -439,21 +472,23 @@ func (jf *JSONFamily) Install() {
 	}
 }
 
-func (jf *JSONFamily) innerSpec(e *FuncEnc, jt *jsonType, c, out, err, tr0, tr1 string) []NamedFormula {
+func (jf *JSONFamily) innerSpec(e *FuncEnc, jt *jsonType, c, out, err, tr0, tr1 string, st0state *state) []NamedFormula {
 	e.jsonEvents()
 	st0, st1 := sx("jst", tr0, out), sx("jst", tr1, out)
 	ok := and(eq(sx("if_tag", err), "0"), not(eq(st0, "99")))
 	obj0, obj1 := sx("jobj", tr0, out), sx("jobj", tr1, out)
-	members, any, fresh, rest := jf.objectSpec(e, jt, c, obj0, obj1)
+	var ap *apCtx
+	if jt.AP {
+		ap = jf.apOf(e, jt, c, st0state)
+	}
+	members, any, fresh, rest := jf.objectSpecAP(e, jt, c, obj0, obj1, ap, nil)
 	var outF []NamedFormula
 	outF = append(outF, NamedFormula{Name: "ensures#state", Props: []string{"C06"}, Formula: implies(ok, eq(st1, ite(any, sx("+", sx("j_base", st0), "2"), st0)))})
 	for _, m := range members {
 		m.Formula = implies(ok, m.Formula)
 		outF = append(outF, m)
 	}
-	if !jt.AP {
-		outF = append(outF, NamedFormula{Name: "ensures#no-other-members", Props: []string{"C07"}, Formula: implies(ok, rest)})
-	}
+	outF = append(outF, NamedFormula{Name: "ensures#no-other-members", Props: []string{"C07"}, Formula: implies(ok, rest)})
 	outF = append(outF, NamedFormula{Name: "ensures#no-duplicates", Props: []string{"C06"}, Formula: implies(and(ok, not(sx("jdup", tr0, out)), fresh), not(sx("jdup", tr1, out)))})
 	outF = append(outF, NamedFormula{Name: "ensures#bad-stays-bad", Props: []string{"C06"}, Formula: implies(eq(st0, "99"), eq(st1, "99"))})
 	return outF
@@ -469,10 +504,10 @@ func (jf *JSONFamily) installInner(f *ssa.Function, jt *jsonType) {
 		return []NamedFormula{{Name: "start-state", Props: []string{"C06"}, Formula: and(not(eq(sx("if_tag", args[1]), "0")), or(eq(st, "0"), eq(st, "10"), eq(st, "99")))}}
 	}
 	c.RetHook = func(e *FuncEnc, results []string) []NamedFormula {
-		return jf.innerSpec(e, jt, e.val[f.Params[0]], e.val[f.Params[1]], results[0], e.entry.trace, e.cur.trace)
+		return jf.innerSpec(e, jt, e.val[f.Params[0]], e.val[f.Params[1]], results[0], e.entry.trace, e.cur.trace, e.entry)
 	}
 	c.PostHook = func(e *FuncEnc, args, results []string, pre, post *state) []NamedFormula {
-		fs := jf.innerSpec(e, jt, args[0], args[1], results[0], pre.trace, post.trace)
+		fs := jf.innerSpec(e, jt, args[0], args[1], results[0], pre.trace, post.trace, pre)
 		// frame: other writers keep their views
 		for _, w := range e.jsonWriters() {
 			if w == args[1] {
@@ -483,25 +518,96 @@ func (jf *JSONFamily) installInner(f *ssa.Function, jt *jsonType) {
 		}
 		return fs
 	}
+	c.Modifies = map[string]bool{} // writes no memory of its caller (C20 proves the frame obligations of the same functions)
+	if jt.AP {
+		jf.installAPLoop(c, f, jt)
+	}
 	jf.Em.W.Contracts[f.String()] = c
 }
 
-func (jf *JSONFamily) outerSpec(e *FuncEnc, jt *jsonType, c, res, err string) []NamedFormula {
+// installAPLoop: invariant of `for k, v := range c.AdditionalProperties { writeProperty(k, v) }`.
+//
+//	loop #0 invariant err == nil && jst(old) != 99 ==>
+//	     (comma == ""  && jst == old && no declared member present && nothing visited)
+//	  || (comma == "," && jst == base+2 && (some declared member present || the map is not empty))
+//	loop #0 invariant ... ==> declared members as in the postcondition
+//	loop #0 invariant ... ==> every other name k: entry == (visited(k) ? the map's entry : the old entry)
+//	loop #0 invariant visited(k) ==> k is a key of the map
+//	loop #0 invariant no duplicates so far; BAD stays BAD
+func (jf *JSONFamily) installAPLoop(c *Contract, f *ssa.Function, jt *jsonType) {
+	errA, commaA := localAlloc(f, "err"), localAlloc(f, "comma")
+	var rng *ssa.Range
+	for _, b := range f.Blocks {
+		for _, in := range b.Instrs {
+			if r, ok := in.(*ssa.Range); ok {
+				if _, isMap := r.X.Type().Underlying().(*types.Map); isMap {
+					rng = r
+				}
+			}
+		}
+	}
+	if errA == nil || commaA == nil || rng == nil {
+		jf.note(f.String() + ": no additional-properties loop of the expected shape")
+		return
+	}
+	c.LoopHook = func(e *FuncEnc, ord int, env *cenv) []NamedFormula {
+		e.jsonEvents()
+		st := env.st
+		cv, out := e.val[f.Params[0]], e.val[f.Params[1]]
+		e1, c1 := e.cellLoad(st, errA), e.cellLoad(st, commaA)
+		tr0, tr1 := e.entry.trace, st.trace
+		st0, st1 := sx("jst", tr0, out), sx("jst", tr1, out)
+		obj0, obj1 := sx("jobj", tr0, out), sx("jobj", tr1, out)
+		G := and(eq(sx("if_tag", e1), "0"), not(eq(st0, "99")))
+		ap := jf.apOf(e, jt, cv, e.entry)
+		key, srt := e.visitedKey(rng, jt.APType.Underlying().(*types.Map))
+		vis := e.heapName(st, key, srt)
+		visited := func(k string) string { return sx("select", vis, k) }
+		members, anyDecl, fresh, rest := jf.objectSpecAP(e, jt, cv, obj0, obj1, ap, visited)
+		var outF []NamedFormula
+		nothing := fmt.Sprintf("(forall ((kv %s)) (! (not (select %s kv)) :pattern ((select %s kv))))", ap.ks, vis, vis)
+		outF = append(outF, NamedFormula{Name: "invariant#comma-state", Props: []string{"C06"}, Formula: implies(G, or(
+			and(eq(c1, "str_empty"), eq(st1, st0), not(anyDecl), nothing),
+			and(eq(c1, "lit_comma"), eq(st1, sx("+", sx("j_base", st0), "2")), or(anyDecl, ap.lenPos))))})
+		for _, m := range members {
+			m.Name = strings.Replace(m.Name, "ensures#", "invariant#", 1)
+			m.Formula = implies(G, m.Formula)
+			outF = append(outF, m)
+		}
+		outF = append(outF, NamedFormula{Name: "invariant#other-members", Props: []string{"C07"}, Formula: implies(G, rest)})
+		outF = append(outF, NamedFormula{Name: "invariant#visited-are-keys", Props: []string{"C07"}, Formula: fmt.Sprintf("(forall ((kv %s)) (! (=> (select %s kv) %s) :pattern ((select %s kv))))", ap.ks, vis, ap.has("kv"), vis)})
+		outF = append(outF, NamedFormula{Name: "invariant#no-duplicates", Props: []string{"C06"}, Formula: implies(and(G, not(sx("jdup", tr0, out)), fresh), not(sx("jdup", tr1, out)))})
+		outF = append(outF, NamedFormula{Name: "invariant#bad-stays-bad", Props: []string{"C06"}, Formula: implies(eq(st0, "99"), eq(st1, "99"))})
+		return outF
+	}
+}
+
+func (jf *JSONFamily) outerSpec(e *FuncEnc, jt *jsonType, c, res, err string, st0state *state) []NamedFormula {
 	e.jsonEvents()
 	e.D.UF("doc_st", []string{"Slice"}, "Int")
 	e.D.UF("doc_obj", []string{"Slice"}, "(Array Str JOpt)")
 	e.D.UF("doc_dup", []string{"Slice"}, "Bool")
 	ok := eq(sx("if_tag", err), "0")
-	members, _, _, rest := jf.objectSpec(e, jt, c, "j_empty", sx("doc_obj", res))
+	var ap *apCtx
+	if jt.AP {
+		ap = jf.apOf(e, jt, c, st0state)
+	}
+	members, _, _, rest := jf.objectSpecAP(e, jt, c, "j_empty", sx("doc_obj", res), ap, nil)
 	outF := []NamedFormula{{Name: "ensures#valid", Props: []string{"C06"}, Formula: implies(ok, eq(sx("doc_st", res), "14"))}}
 	for _, m := range members {
 		m.Formula = implies(ok, m.Formula)
 		outF = append(outF, m)
 	}
-	if !jt.AP {
-		outF = append(outF, NamedFormula{Name: "ensures#no-other-members", Props: []string{"C07"}, Formula: implies(ok, rest)})
+	outF = append(outF, NamedFormula{Name: "ensures#no-other-members", Props: []string{"C07"}, Formula: implies(ok, rest)})
+	nodupHyp := "true"
+	if ap != nil {
+		var disj []string
+		for _, m := range jt.Members {
+			disj = append(disj, not(ap.has(e.D.Lit(m.Name))))
+		}
+		nodupHyp = and(disj...)
 	}
-	outF = append(outF, NamedFormula{Name: "ensures#no-duplicates", Props: []string{"C06"}, Formula: implies(ok, not(sx("doc_dup", res)))})
+	outF = append(outF, NamedFormula{Name: "ensures#no-duplicates", Props: []string{"C06"}, Formula: implies(and(ok, nodupHyp), not(sx("doc_dup", res)))})
 	return outF
 }
 
@@ -509,11 +615,12 @@ func (jf *JSONFamily) installOuter(f *ssa.Function, jt *jsonType) {
 	c := newFamilyContract(f)
 	c.Options["family"] = "json-marshal"
 	c.RetHook = func(e *FuncEnc, results []string) []NamedFormula {
-		return jf.outerSpec(e, jt, e.val[f.Params[0]], results[0], results[1])
+		return jf.outerSpec(e, jt, e.val[f.Params[0]], results[0], results[1], e.entry)
 	}
 	c.PostHook = func(e *FuncEnc, args, results []string, pre, post *state) []NamedFormula {
-		return jf.outerSpec(e, jt, args[0], results[0], results[1])
+		return jf.outerSpec(e, jt, args[0], results[0], results[1], pre)
 	}
+	c.Modifies = map[string]bool{}
 	jf.Em.W.Contracts[f.String()] = c
 }
 
@@ -668,4 +775,45 @@ func (jf *JSONFamily) installWriteProperty(g, parent *ssa.Function) {
 		return spec(e, args[0], args[1], pre, post)
 	}
 	jf.Em.W.Contracts[g.String()] = c
+}
+
+// ---------------------------------------------------------------- additional properties
+
+type apCtx struct {
+	m      string // the map value (address)
+	has    func(k string) string
+	entry  func(k string) string // JOpt entry written for key k
+	lenPos string               // the map has at least one key
+	ks     string
+	problem string
+}
+
+// apOf: terms describing the AdditionalProperties map of struct value c, read
+// in state st (the map is not written by the codec).
+func (jf *JSONFamily) apOf(e *FuncEnc, jt *jsonType, c string, st *state) *apCtx {
+	mt := jt.APType.Underlying().(*types.Map)
+	vk, hk, vs, hs, ks, _ := e.mapKeys(mt)
+	m := sx(e.D.FieldSelector(jt.Named, jt.APField), c)
+	hasArr := sx("select", e.heapName(st, hk, hs), m)
+	valArr := sx("select", e.heapName(st, vk, vs), m)
+	ctx := &apCtx{m: m, ks: ks}
+	ctx.has = func(k string) string { return and(not(eq(m, "0")), sx("select", hasArr, k)) }
+	elem := mt.Elem()
+	ctx.entry = func(k string) string {
+		v := sx("select", valArr, k)
+		if types.IsInterface(elem) {
+			return ite(eq(sx("if_tag", v), "0"), "(j_some jv_null)", sx("j_some", sx("jv_enc", v)))
+		}
+		return sx("j_some", sx("jv_enc", e.ifaceOf(elem, v)))
+	}
+	lenf := e.D.UF("maplen_"+mangle(ks), []string{fmt.Sprintf("(Array %s Bool)", ks)}, "Int")
+	e.D.Axiom("maplen_"+mangle(ks), fmt.Sprintf("(forall ((a (Array %s Bool))) (! (>= (%s a) 0) :pattern ((%s a))))", ks, lenf, lenf))
+	e.D.Axiom("maplen0_"+mangle(ks), fmt.Sprintf("(= (%s ((as const (Array %s Bool)) false)) 0)", lenf, ks))
+	// a map with a key has positive length
+	e.D.Axiom("maplenpos_"+mangle(ks), fmt.Sprintf("(forall ((a (Array %s Bool)) (k %s)) (! (=> (select a k) (> (%s a) 0)) :pattern ((select a k) (%s a))))", ks, ks, lenf, lenf))
+	ctx.lenPos = and(not(eq(m, "0")), sx(">", sx(lenf, hasArr), "0"))
+	if jt.Schema.APSchema != nil && !types.IsInterface(elem) && !goKindMatches(elem, jt.Schema.APSchema) {
+		ctx.problem = fmt.Sprintf("additional property values of Go type %s do not encode as JSON %q", elem, jt.Schema.APSchema.Type)
+	}
+	return ctx
 }
